@@ -104,6 +104,7 @@ class RegressionAdjustment(object):
         self._parameter_names = parameter_names or sample.parameter_names
         self._get_finite()
 
+        self.regression_models = []
         for pair in self._pairs():
             self.regression_models.append(self._fit1(*pair))
 
